@@ -27,6 +27,21 @@ CHECKS = {
             "under a release build (no debug assertions / overflow checks) and the digests of all encodings are compared.",
             "No counterexample among the generated and constructed cases. The 268,435,455-byte accepted side is only built in the thorough tier. " + TRUST,
             "DESIGN.md §7 C02"),
+    "C07": ("exploration",
+            "property-based testing (proptest over choice tapes) x enumeration of cut positions; classification oracle",
+            "For generated valid packets every strict prefix of the encoding (all cut positions for encodings up to 400 bytes, "
+            "every field boundary and sampled positions beyond) must be reported as incomplete by all three decoders, and the "
+            "encoding followed by arbitrary bytes must decode to the same packet with exactly its own bytes consumed.",
+            "No counterexample among the generated (packet, cut, suffix) cases. " + TRUST,
+            "DESIGN.md §7 C07"),
+    "C08": ("exploration",
+            "property-based testing (proptest over choice tapes): packet sequences over scripted chunked transports; sequence equality and byte accounting",
+            "Generated sequences of 1..8 valid packets are concatenated and decoded packet by packet with every front-end (blocking "
+            "with two independent ways of advancing, async on a shared reader and over a scripted chunked transport with Pending, "
+            "poll with a fresh state per packet); the decoded sequence, per-packet byte counts and the EOF report at the clean "
+            "boundary are compared with what was generated.",
+            "No counterexample among the generated (sequence, delivery) cases; 4-byte-header packets only in the thorough tier. " + TRUST,
+            "DESIGN.md §7 C08"),
     "C09": ("exploration",
             "property-based testing (proptest over choice tapes): differential between encoder entry points under scripted sinks",
             "For generated valid packets the blocking encoder (twice), the async encoder into a Vec, an exactly sized Cursor, a "
@@ -42,6 +57,14 @@ CHECKS = {
             "every context and every protocol level must have been exercised or the run reports broken machinery.",
             "No counterexample among the generated cases; the reference decoder and its spec tables (DESIGN.md Appendix A) are trusted. " + TRUST,
             "DESIGN.md §7 C10"),
+    "C14": ("fault_enumeration",
+            "fault injection enumerated over byte positions and error kinds on generated packets (proptest-driven), scripted transports",
+            "For generated valid packets a read error of each of five io::ErrorKinds is injected at every byte position (and EOF at "
+            "every position) into the async and poll decoders under one-shot and chunked delivery; a write error or zero-length "
+            "write at every position into the async encoder and the streaming body encoders. The oracle is the injected kind "
+            "itself, the prefix property of what the sink received, and a conversion table for the error types.",
+            "Positions are exhaustive for encodings up to 260 bytes and sampled (field boundaries + random) beyond; Interrupted / WouldBlock are excluded by convention. " + TRUST,
+            "DESIGN.md §7 C14"),
     "C15": ("exploration",
             "exhaustive enumeration of the var-int domain (thorough: all 2^28 values) against a closed-form arithmetic model",
             "Every value of 0..=268,435,455 (thorough; a dense-boundary + stride-97 sample in quick) is pushed through the library's "
